@@ -63,6 +63,13 @@ Definition relex_raw (v : str) : bool :=
   | _ => false
   end.
 
+(* every string-literal token of a lexed source re-scans to itself once written between
+   double quotes (fails only for literals with an incomplete \x / \u escape directly
+   followed by text that completes it after decoding, e.g. "\x\x41") *)
+Definition string_stable (t : token) : bool :=
+  negb (t_type t =? T_STRING) || relex_string (t_lit t).
+Definition strings_stable (toks : list token) : bool := forallb string_stable toks.
+
 Definition ident_lexical (i : ident) : bool :=
   (t_type (id_tok i) =? T_IDENT) && str_eqb (id_value i) (t_lit (id_tok i)) && relex_word T_IDENT (id_value i).
 
